@@ -58,6 +58,9 @@ type referenceTracker struct {
 	// references are the updated references by the set of updates processed
 	references database.References
 
+	// updates generated so far from reference tracking, on top of updates
+	referenceUpdates ModelUpdates
+
 	// helper maps to track the rows that we are processing and their tables
 	tracked map[string]string
 	added   map[string]string
@@ -93,7 +96,7 @@ func (rt *referenceTracker) processReferences(updates ModelUpdates) (ModelUpdate
 }
 
 func (rt *referenceTracker) processReferencesLoop(updates ModelUpdates) (ModelUpdates, error) {
-	referenceUpdates := ModelUpdates{}
+	rt.referenceUpdates = ModelUpdates{}
 
 	// references can be transitive and deleting them can lead to further
 	// references having to be removed so loop until there are no updates to be
@@ -124,13 +127,13 @@ func (rt *referenceTracker) processReferencesLoop(updates ModelUpdates) (ModelUp
 		}
 
 		// merge updates from this iteration to the overall reference updates
-		err = referenceUpdates.Merge(rt.dbModel, updates)
+		err = rt.referenceUpdates.Merge(rt.dbModel, updates)
 		if err != nil {
 			return ModelUpdates{}, err
 		}
 	}
 
-	return referenceUpdates, nil
+	return rt.referenceUpdates, nil
 }
 
 // processModelUpdates keeps track of the updated references by a set of updates
@@ -543,8 +546,13 @@ func (rt *referenceTracker) getModel(table, uuid string) (model.Model, error) {
 		// model has been deleted
 		return nil, nil
 	}
-	// look for the model in the updates
-	model := rt.updates.GetModel(table, uuid)
+	// look for the model in the updates, the ones generated from reference
+	// tracking on previous iterations apply on top of the original ones
+	model := rt.referenceUpdates.GetModel(table, uuid)
+	if model != nil {
+		return model, nil
+	}
+	model = rt.updates.GetModel(table, uuid)
 	if model != nil {
 		return model, nil
 	}
@@ -562,8 +570,13 @@ func (rt *referenceTracker) getRow(table, uuid string) (*ovsdb.Row, error) {
 		// row has been deleted
 		return nil, nil
 	}
-	// look for the row in the updates
-	row := rt.updates.GetRow(table, uuid)
+	// look for the row in the updates, the ones generated from reference
+	// tracking on previous iterations apply on top of the original ones
+	row := rt.referenceUpdates.GetRow(table, uuid)
+	if row != nil {
+		return row, nil
+	}
+	row = rt.updates.GetRow(table, uuid)
 	if row != nil {
 		return row, nil
 	}
